@@ -2,6 +2,7 @@ package c12
 
 import (
 	"bytes"
+	"context"
 	"fmt"
 	"io"
 	"net"
@@ -368,10 +369,29 @@ type azBody struct {
 	r      *bytes.Reader
 	failAt bool // end with an error instead of EOF
 	closed bool
+	// stall: after the data, park until the request's context ends (the
+	// client gave up) or the harness releases the backend
+	stall bool
+	ctx   context.Context
+	hash  string
+	piece int
 }
 
 func (a *azBody) Read(p []byte) (int, error) {
+	if a.piece > 0 && len(p) > a.piece {
+		p = p[:a.piece]
+	}
 	n, err := a.r.Read(p)
+	if err == io.EOF && a.stall {
+		if n > 0 {
+			return n, nil
+		}
+		a.b.st.wait(a.hash, a.ctx.Done())
+		err = a.ctx.Err()
+		if err == nil {
+			err = io.ErrUnexpectedEOF
+		}
+	}
 	if err == io.EOF && a.failAt {
 		err = io.ErrUnexpectedEOF
 	}
@@ -441,6 +461,19 @@ func (b *azBackend) Do(req *http.Request) (*http.Response, error) {
 			return resp, nil
 		}
 		rec := upload{kind: prefixKind(prefix), hash: hash, name: req.URL.Path, payload: body, declared: req.ContentLength}
+		if up != nil && up.once {
+			b.mu.Lock()
+			delete(b.upPlans, hash)
+			b.mu.Unlock()
+		}
+		if up != nil && up.act == "stall" {
+			// a slow backend: the transfer is parked until the harness resumes it
+			b.st.wait(hash, req.Context().Done())
+			if err := req.Context().Err(); err != nil {
+				return nil, err
+			}
+			up = nil
+		}
 		if up != nil {
 			b.mu.Lock()
 			b.putRecs[hash] = append(b.putRecs[hash], rec)
@@ -464,7 +497,12 @@ func (b *azBackend) Do(req *http.Request) (*http.Response, error) {
 		}
 		data := obj
 		failAt := false
+		stall := false
+		piece := 0
 		cl := -1
+		if err := req.Context().Err(); err != nil {
+			return nil, err
+		}
 		if p != nil {
 			switch p.act {
 			case "absent":
@@ -474,19 +512,35 @@ func (b *azBackend) Do(req *http.Request) (*http.Response, error) {
 				set(p.status, "Injected")
 				resp.Header.Set("x-ms-error-code", "InternalError")
 				return resp, nil
+			case "stall":
+				b.st.wait(hash, req.Context().Done())
+				if err := req.Context().Err(); err != nil {
+					return nil, err
+				}
+				set(503, "Injected")
+				resp.Header.Set("x-ms-error-code", "ServerBusy")
+				return resp, nil
 			case "headsize":
 				if ok && p.size >= 0 {
 					cl = int(p.size)
 				}
 			case "deliver":
 				if ok {
+					if p.corrupt != nil {
+						data = p.corrupt(append([]byte(nil), data...))
+					}
 					if p.cut >= 0 && p.cut < len(data) {
 						data = data[:p.cut]
 					}
+					if p.extra > 0 {
+						data = append(append([]byte(nil), data...), garbage(p.extra)...)
+					}
 					if p.framing == "cl-full" {
 						cl = len(obj)
-						failAt = true
+						failAt = p.end != "stall"
 					}
+					stall = p.end == "stall"
+					piece = p.trickle
 				}
 			}
 		}
@@ -525,7 +579,11 @@ func (b *azBackend) Do(req *http.Request) (*http.Response, error) {
 			b.mu.Lock()
 			b.readers++
 			b.mu.Unlock()
-			resp.Body = &azBody{b: b, r: bytes.NewReader(data), failAt: failAt}
+			body := &azBody{b: b, r: bytes.NewReader(data), failAt: failAt, stall: stall, ctx: req.Context(), hash: hash, piece: piece}
+			// like net/http: when the request's context ends, the transport
+			// gives up the connection of a response that is still open
+			context.AfterFunc(req.Context(), body.release)
+			resp.Body = body
 		}
 	default:
 		set(405, "Method Not Allowed")
